@@ -381,3 +381,19 @@ example : (exFlat.prepareForOutputting).toOption.map (fun P => P.map (fun d => d
   decide +kernel
 
 end BB.C11
+
+/-! ### the compensation call sites (regenerated from sequence.py on every run)
+
+`Gen.filterCallSites` lists every call of `ripasso.applyInverseRCFilter` inside class `Sequence`: the method it sits in, the DC
+gain handed over, the expression handed over as the sample rate, and the expressions handed over as kind, cut-off and order. -/
+namespace BB.C11
+
+/-- **"DC gain 1, the sequence's sample rate, same kind and order, cut-off f_cut"**: there are exactly two compensation calls, one
+    in `forge` and one in `_prepareForOutputting` (the front end of both AWG output methods); each hands over DC gain 1, the
+    sequence's own `self.SR`, and the declared kind, the cut-off resolved from `f_cut` / `1/tau`, and the order, in that order. -/
+theorem compensation_call_sites :
+    Gen.filterCallSites.map (·.1) = ["forge", "_prepareForOutputting"] ∧
+    ∀ c ∈ Gen.filterCallSites, c.2.1 = 1 ∧ c.2.2.1 = "self.SR" ∧ c.2.2.2 = ["kind", "f_cut", "order"] := by
+  decide
+
+end BB.C11
